@@ -249,10 +249,9 @@ theorem decode_encodeMeditBin (m : Mesh) (g : GoodMesh m) :
   have hm : fromLE (toLE 4 1) = 1 := by decide
   simp only [hm, ne_eq, not_true_eq_false, false_and, if_false, decide_true]
   rw [readInt4_lit ⟨true, 4, 4⟩ rfl 4 4 rfl _ (by decide)]
-  simp only [Int.reduceEq, if_false, if_true, ne_eq, not_true_eq_false, and_false, not_false_eq_true,
-    and_true, and_self]
+  simp only [Int.reduceEq, if_false, if_true, not_true_eq_false, and_false, not_false_eq_true]
   rw [readInt4_lit ⟨true, 8, 8⟩ rfl 3 3 rfl _ (by decide)]
-  simp only [ne_eq, not_true_eq_false, if_false]
+  simp only [not_true_eq_false, if_false]
   have h24 := readInt8_toLE 24 (toLE 4 m.dim ++ (toLE 4 4 ++ (toLE 8 (24 + 8 * m.nodeRefs.length * (m.dim + 1) + 20) ++
       (toLE 8 m.nodeRefs.length ++ (encVerts m.dim m.coords m.nodeRefs ++
         encBlocks (24 + 8 * m.nodeRefs.length * (m.dim + 1) + 20) m.topo))))) (by decide)
